@@ -32,6 +32,7 @@ RULE = (
 ASSUMPTIONS = [
     "levels coupled by the perturbation are non-degenerate (incommensurate rational frequencies); accidental degeneracies among far states are treated as kept in the reference",
     "matrix model vf/models/fock.py and reference solver vf/models/refsolve.py are the trusted base; tolerance 1e-7 relative",
+    "known finding F23 is classified by mechanism, not silenced: a mismatch is attributed to it only if the case has a model state whose level equals the continuation of a level at a non-existent occupation and every mismatching element lies on a chain of <= order perturbation steps through such a state; any other mismatch is a violation",
 ]
 BUDGET = {"quick": dict(cases=150, seconds=300), "thorough": dict(cases=2400, seconds=560)}
 CASE_TIMEOUT = 150
